@@ -308,6 +308,31 @@ def run_draw(tmp, obj, orientation):
         tikz = f.read()
     if "\\begin{tikzpicture}" not in tikz:
         return "draw wrote no tikzpicture"
+    # the documented default: no --output (the standard output) and no explicit output type
+    # (fixed defect F-DRAW-STDOUT: argparse names that stream "<stdout>", `draw` tested for "-")
+    args = None
+    class _Stdout(io.BytesIO):  # what sys.stdout.buffer is to argparse.FileType: a binary stream named "<stdout>"
+        name = "<stdout>"
+
+    fake = io.TextIOWrapper(_Stdout(), encoding="utf-8")
+    old = sys.stdout
+    try:
+        sys.stdout = fake
+        with contextlib.redirect_stderr(io.StringIO()):
+            args = parser().parse_args(["draw", "--input", inp, "--orientation", orientation])
+            status = args.func(args)
+        fake.flush()
+        written = fake.buffer.getvalue().decode("utf-8", "replace")
+    except Exception as e:  # noqa
+        return f"draw to the standard output raised {type(e).__name__}: {e}"
+    finally:
+        sys.stdout = old
+        if args is not None:
+            args.input.close()
+    if status != 0:
+        return f"draw without --output (standard output, no output type) returned {status}"
+    if written != tikz:
+        return "draw writes different TikZ code to the standard output and to a .tex file"
     return None
 
 
@@ -450,6 +475,11 @@ def canon_obj(obj):
     return json.dumps(obj, sort_keys=True)
 
 
+def noise_free(line):
+    """A stderr line that is neither the cost line nor a warning of a solver (family cycle)."""
+    return bool(line.strip()) and not line.startswith("Minimum cost:") and "cycle" not in line.lower()
+
+
 def check_case(case, tmp, draw_budget=3, rng=None):
     """Run one (input, algorithm, cost options) under both policies.
     Returns (failure | None, observations for the model tie)."""
@@ -465,15 +495,16 @@ def check_case(case, tmp, draw_budget=3, rng=None):
         m = re.search(r"^Minimum cost: (\S+)$", r["stderr"], re.M)
         obs[solutions] = {
             "status": 0 if r["status"] is None else r["status"],
-            "warn": "declared leaf syntenies will be ignored" in r["stderr"],
-            "error": "you need to provide leaf syntenies" in r["stderr"],
+            # wording-free: a line that is no "Minimum cost:" line and no solver warning
+            "warn": r["status"] is None and any(noise_free(ln) for ln in r["stderr"].splitlines()),
+            "error": r["status"] == 1 and r["text"] == "" and not m and algo in SUPER and not has_syn,
             "mincost": m is not None,
             "lines": len(lines),
         }
         if r["stdout"]:
             return "reconcile wrote to stdout although --output was given", obs
         if algo in SUPER and not has_syn:
-            if r["status"] != 1 or r["text"] != "" or "Error:" not in r["stderr"] or m:
+            if r["status"] != 1 or r["text"] != "" or m:
                 return (f"super-reconciliation algorithm without syntenies: status {r['status']}, "
                         f"{len(r['text'])} bytes written, stderr {r['stderr']!r}"), obs
             continue
@@ -608,6 +639,12 @@ def tie(ctx, res, reqs):
     outs = ctx.driver.parallel([r for r, _ in reqs])
     for (req, impl), model in zip(reqs, outs):
         if model != impl:
+            if req["op"] == "c12_dispatch" and isinstance(model.get("call"), dict) and isinstance(impl.get("call"), dict) \
+                    and {**model, "call": {**model["call"], "warn": None}} == {**impl, "call": {**impl["call"], "warn": None}}:
+                # only the presence of a warning line differs: not a clause of C12
+                k_ = "c12_dispatch: a warning line is printed on one side only (note)"
+                NOTES[k_] = NOTES.get(k_, 0) + 1
+                continue
             res.tie_broken(f"{req['op']}: model vs implementation", req, model, impl)
 
 
@@ -638,9 +675,12 @@ def subprocess_checks(res, tmp):
 
 
 def probe_inf(res):
+    f = getattr(cli_reconcile, "eval_cost", None)     # a private helper: may be renamed
+    if f is None:
+        return
     try:
-        cli_reconcile.eval_cost("inf")
-    except NameError:
+        f("inf")
+    except Exception:  # noqa   NameError today; how it is refused is not part of C12
         res.notes.append("--cost-hgt inf is rejected with NameError (eval in a module that does not import "
                          "inf); float('inf') is the accepted spelling")
 
